@@ -411,11 +411,20 @@ def check(model, rep, tier):
             line=ef.node.lineno,
             witness="a configuration naming (ast.Call, 'args', ...) or (ast.BinOp, 'right', ...)")
   en = cls.methods.get('_ensure_node_in_anf')
-  tables = [n for n in ast.walk(en.node) if isinstance(n, ast.Call) and
-            core.dotted(n.func) == 'isinstance' and isinstance(n.args[1], ast.Tuple)]
+  # kinds under whose isinstance test the fields are named in place of the node
+  # (one tuple test or several single tests joined by `or`)
   passthrough = set()
-  for t in tables:
-    passthrough |= {core.dotted(e).split('.')[-1] for e in t.args[1].elts}
+  for c_ in ast.walk(en.node):
+    if isinstance(c_, ast.Call) and core.norm(c_.func) == 'self._ensure_fields_in_anf' \
+        and len(c_.args) == 3:
+      for pol, tst in formula.path_condition(en.node, c_):
+        if pol != 'T':
+          continue
+        for t in ast.walk(tst):
+          if isinstance(t, ast.Call) and core.dotted(t.func) == 'isinstance' and \
+              len(t.args) == 2:
+            ks = t.args[1].elts if isinstance(t.args[1], ast.Tuple) else [t.args[1]]
+            passthrough |= {(core.dotted(e) or '?').split('.')[-1] for e in ks}
   rep.check({'Starred', 'withitem', 'Slice'} <= passthrough, 'ANF-CLASSES',
             '%s:pass-through-kinds' % en.site,
             'Starred, withitem and Slice are not expressions on their own: they '
@@ -433,8 +442,20 @@ def check(model, rep, tier):
   if ok:
     ctr = core.norm(g.nodes[inc[0]][1].target)
     dom = g.dominators(skip_labels=('exc',))
-    ok = all(inc[0] in dom[r] and ctr in core.norm(g.nodes[r][1].value)
-             for r in rets)
+    # (the returned name may be assembled through locals; every definition of
+    # such a local that reaches the return comes after the increment as well)
+    def uses_ctr(r):
+      v = g.nodes[r][1].value
+      if ctr in core.norm(v):
+        return True
+      for nm in [x for x in ast.walk(v) if isinstance(x, ast.Name)]:
+        for i2, (k2, a2) in enumerate(g.nodes):
+          if isinstance(a2, ast.Assign) and len(a2.targets) == 1 and core.norm(
+              a2.targets[0]) == nm.id and ctr in core.norm(a2.value) and \
+              inc[0] in dom[i2] and i2 in dom[r]:
+            return True
+      return False
+    ok = all(inc[0] in dom[r] and uses_ctr(r) for r in rets)
   elif rets:
     # a counter object: every returned name contains the value of one
     # next(self.<c>) call, <c> being an itertools.count set up in __init__
